@@ -1,7 +1,15 @@
 /-
   C04 — CPR decode with a reference position (airborne and surface).
+
+  `Spec.cprEncode nl base i lat lon` is the DO-260B encoder over ℚ (`base` = 360 airborne,
+  90 surface; `i` = 0 even, 1 odd); `e.rlat`, `e.rlon` is the position carried by the frame,
+  `e.dlat`, `e.dlon` the zone sizes, `e.yz`, `e.xz` the transmitted 17-bit fields.  All theorems
+  hold for an arbitrary NL function `nl` and every `0 < base`.  The `yzFull = 2^17` wrap of the
+  encoder (field transmitted as 0, zone index one higher) is covered: nothing is assumed about
+  the input latitude/longitude.  Proofs: `PyModeS/Proofs/CPR/Floor.lean`, `Local.lean`.
 -/
 import PyModeS.Model.Adsb
+import PyModeS.Proofs.CPR.Local
 namespace PyModeS.C04
 
 /-- `position_with_ref` routes by type code: surface 5–8, airborne 9–18 and 20–22, RuntimeError otherwise -/
@@ -10,5 +18,117 @@ theorem tc_routing (b : Bits) (tc : Nat) (h : tcB b = some tc) :
       if 5 ≤ tc ∧ tc ≤ 8 then .val .surface
       else if (9 ≤ tc ∧ tc ≤ 18) ∨ (20 ≤ tc ∧ tc ≤ 22) then .val .airborne else .rte := by
   unfold positionWithRefRoute; simp [h]
+
+/-- **ref_lat.** A reference latitude closer than half a latitude zone to the carried latitude
+    makes the local decoder return the carried latitude exactly. -/
+theorem ref_lat (nl : ℚ → ℕ) (base : ℚ) (hb : 0 < base) (i : ℕ) (hi : i = 0 ∨ i = 1)
+    (lat lon latRef lonRef : ℚ) (e : Spec.Enc) (he : e = Spec.cprEncode nl base i lat lon)
+    (h : |latRef - e.rlat| < e.dlat / 2) :
+    (positionWithRefCore nl base ⟨decide (i = 1), e.yz, e.xz⟩ latRef lonRef).1 = e.rlat := by
+  subst he
+  exact CPR.ref_lat nl base hb i hi lat lon latRef lonRef h
+
+/-- **ref_lon.** If moreover the reference longitude is closer than half a longitude zone to the
+    carried longitude shifted by `s` zones, the decoder returns exactly that shifted longitude. -/
+theorem ref_lon (nl : ℚ → ℕ) (base : ℚ) (hb : 0 < base) (i : ℕ) (hi : i = 0 ∨ i = 1)
+    (lat lon latRef lonRef : ℚ) (e : Spec.Enc) (he : e = Spec.cprEncode nl base i lat lon)
+    (s : ℤ)
+    (h : |latRef - e.rlat| < e.dlat / 2)
+    (hl : |lonRef - (e.rlon + e.dlon * s)| < e.dlon / 2) :
+    (positionWithRefCore nl base ⟨decide (i = 1), e.yz, e.xz⟩ latRef lonRef).2
+      = e.rlon + e.dlon * s := by
+  subst he
+  exact CPR.ref_lon nl base hb i hi lat lon latRef lonRef s h hl
+
+/-- both coordinates at once -/
+theorem ref_decode (nl : ℚ → ℕ) (base : ℚ) (hb : 0 < base) (i : ℕ) (hi : i = 0 ∨ i = 1)
+    (lat lon latRef lonRef : ℚ) (e : Spec.Enc) (he : e = Spec.cprEncode nl base i lat lon)
+    (s : ℤ)
+    (h : |latRef - e.rlat| < e.dlat / 2)
+    (hl : |lonRef - (e.rlon + e.dlon * s)| < e.dlon / 2) :
+    positionWithRefCore nl base ⟨decide (i = 1), e.yz, e.xz⟩ latRef lonRef
+      = (e.rlat, e.rlon + e.dlon * s) :=
+  Prod.ext (ref_lat nl base hb i hi lat lon latRef lonRef e he h)
+    (ref_lon nl base hb i hi lat lon latRef lonRef e he s h hl)
+
+/-- `base` is a whole number of longitude zones: `base = ni · dlon`, `ni = max (nl rlat − i) 1` -/
+theorem base_eq_zones (nl : ℚ → ℕ) (base : ℚ) (i : ℕ) (lat lon : ℚ)
+    (e : Spec.Enc) (he : e = Spec.cprEncode nl base i lat lon) :
+    base = e.dlon * ((max (nl e.rlat - i) 1 : ℕ) : ℚ) := by
+  subst he
+  rw [CPR.enc_dlon]
+  have : (1 : ℚ) ≤ ((max (nl (Spec.cprEncode nl base i lat lon).rlat - i) 1 : ℕ) : ℚ) := by
+    exact_mod_cast le_max_right _ _
+  field_simp
+
+/-- longitude is recovered modulo `base` (the reference picks the sheet `t`) -/
+theorem ref_lon_modbase (nl : ℚ → ℕ) (base : ℚ) (hb : 0 < base) (i : ℕ) (hi : i = 0 ∨ i = 1)
+    (lat lon latRef lonRef : ℚ) (e : Spec.Enc) (he : e = Spec.cprEncode nl base i lat lon)
+    (t : ℤ)
+    (h : |latRef - e.rlat| < e.dlat / 2)
+    (hl : |lonRef - e.rlon - base * t| < e.dlon / 2) :
+    (positionWithRefCore nl base ⟨decide (i = 1), e.yz, e.xz⟩ latRef lonRef).2
+      = e.rlon + base * t := by
+  have hz := base_eq_zones nl base i lat lon e he
+  have e1 : e.rlon + base * t = e.rlon + e.dlon * (((max (nl e.rlat - i) 1 : ℕ) * t : ℤ) : ℚ) := by
+    rw [Int.cast_mul, Int.cast_natCast, ← mul_assoc, ← hz]
+  rw [e1]
+  apply ref_lon nl base hb i hi lat lon latRef lonRef e he _ h
+  rw [← e1]
+  have : lonRef - (e.rlon + base * t) = lonRef - e.rlon - base * t := by ring
+  rw [this]; exact hl
+
+/-- **ref_lon_mod360** (airborne, `base = 360`): the longitude is recovered modulo 360. -/
+theorem ref_lon_mod360 (nl : ℚ → ℕ) (i : ℕ) (hi : i = 0 ∨ i = 1)
+    (lat lon latRef lonRef : ℚ) (e : Spec.Enc) (he : e = Spec.cprEncode nl 360 i lat lon)
+    (t : ℤ)
+    (h : |latRef - e.rlat| < e.dlat / 2)
+    (hl : |lonRef - e.rlon - 360 * t| < e.dlon / 2) :
+    (positionWithRefCore nl 360 ⟨decide (i = 1), e.yz, e.xz⟩ latRef lonRef).2
+      = e.rlon + 360 * t :=
+  ref_lon_modbase nl 360 (by norm_num) i hi lat lon latRef lonRef e he t h hl
+
+/-- surface (`base = 90`): the same, the 360-degree sheet being `4 t` surface sheets -/
+theorem ref_lon_surface_mod360 (nl : ℚ → ℕ) (i : ℕ) (hi : i = 0 ∨ i = 1)
+    (lat lon latRef lonRef : ℚ) (e : Spec.Enc) (he : e = Spec.cprEncode nl 90 i lat lon)
+    (t : ℤ)
+    (h : |latRef - e.rlat| < e.dlat / 2)
+    (hl : |lonRef - e.rlon - 360 * t| < e.dlon / 2) :
+    (positionWithRefCore nl 90 ⟨decide (i = 1), e.yz, e.xz⟩ latRef lonRef).2
+      = e.rlon + 360 * t := by
+  have e1 : (360 : ℚ) * t = 90 * ((4 * t : ℤ) : ℚ) := by push_cast; ring
+  rw [e1] at hl ⊢
+  exact ref_lon_modbase nl 90 (by norm_num) i hi lat lon latRef lonRef e he _ h hl
+
+/-- **ref_stable.** The result does not depend on the reference as long as it stays inside the
+    open box of half a zone around the (shifted) carried position. -/
+theorem ref_stable (nl : ℚ → ℕ) (base : ℚ) (hb : 0 < base) (i : ℕ) (hi : i = 0 ∨ i = 1)
+    (lat lon latRef lonRef latRef' lonRef' : ℚ) (e : Spec.Enc)
+    (he : e = Spec.cprEncode nl base i lat lon) (s : ℤ)
+    (h : |latRef - e.rlat| < e.dlat / 2)
+    (hl : |lonRef - (e.rlon + e.dlon * s)| < e.dlon / 2)
+    (h' : |latRef' - e.rlat| < e.dlat / 2)
+    (hl' : |lonRef' - (e.rlon + e.dlon * s)| < e.dlon / 2) :
+    positionWithRefCore nl base ⟨decide (i = 1), e.yz, e.xz⟩ latRef lonRef
+      = positionWithRefCore nl base ⟨decide (i = 1), e.yz, e.xz⟩ latRef' lonRef' := by
+  rw [ref_decode nl base hb i hi lat lon latRef lonRef e he s h hl,
+    ref_decode nl base hb i hi lat lon latRef' lonRef' e he s h' hl']
+
+/-! ### the hypotheses are satisfiable: lat 52.2572, lon 3.91937, reference (52, 4), `cprNL` -/
+
+/-- even airborne frame: fields 93000 / 51372, carried position (428091/8192, 64215/16384) -/
+example :
+    let e := Spec.cprEncode cprNL 360 0 (522572 / 10000) (391937 / 100000)
+    (e.yz, e.xz) = (93000, 51372) ∧
+    |(52 : ℚ) - e.rlat| < e.dlat / 2 ∧ |(4 : ℚ) - (e.rlon + e.dlon * (0 : ℤ))| < e.dlon / 2 ∧
+    positionWithRefCore cprNL 360 ⟨decide (0 = 1), e.yz, e.xz⟩ 52 4 = (428091 / 8192, 64215 / 16384) := by
+  decide +kernel
+
+/-- odd surface frame, reference one sheet (90°) to the east: shift `s = ni` zones -/
+example :
+    let e := Spec.cprEncode cprNL 90 1 (522572 / 10000) (391937 / 100000)
+    |(52 : ℚ) - e.rlat| < e.dlat / 2 ∧ |(94 : ℚ) - e.rlon - 90 * (1 : ℤ)| < e.dlon / 2 ∧
+    (positionWithRefCore cprNL 90 ⟨decide (1 = 1), e.yz, e.xz⟩ 52 94).2 = e.rlon + 90 := by
+  decide +kernel
 
 end PyModeS.C04
